@@ -19,13 +19,21 @@ the two compaction goroutines with `compactionTransact`'s retry loop and `compac
 `Step cfg true`, all others `Step cfg false`.  `Get` and iterator steps take none of these resources and are
 not threads of the model.
 
-**The property does not hold of the code as it is** (`Cfg.asIs`): four calls can return while a resource
-they acquired stays held for ever — `leak_commit`, `leak_opentx`, `leak_largebatch` (defects D5–D7 of the
-design document) and `leak_setreadonly` (`SetReadOnly` racing with `Close`, found while modelling).  Each is
-proved by an explicit run and an invariant showing that the resource is never released afterwards and which
-later calls therefore never complete.  For the configuration in which the four returns release what they hold
-(`Cfg.repaired`) the property is proved: `released_on_return`, `progress`, `recovers_after_faults`,
-`close_returns`.
+**What is proved about the current code.**  The model is parametrised by `Cfg`, one flag per return path that
+could leave a resource held.  `codeCfg` takes the four flags from `Gen/Consts.lean`, which is regenerated
+from the Go AST on every run.  `code_three_fixed` (a `decide`) states that the leaks of `Transaction.Commit`,
+`OpenTransaction` and the large-batch path of `DB.Write` (D5–D7 of the design document) are closed in the
+source — un-fixing any of them breaks this file.  `released_on_return`, `progress`, `recovers_after_faults`
+and `close_returns` are proved for every configuration with these three flags set, for every reachable state
+if the fourth flag is set too, and otherwise for every state reachable in a run in which no thread executes
+`SetReadOnly` (`Covered`); `code_…` are the instances at `codeCfg`, `repaired_…` those at `Cfg.repaired`.
+
+**What is not**: `SetReadOnly` racing with `Close` (found while modelling, not fixed in the source:
+`Gen.lkSetReadOnlyReleasesOnClose = false`).  `known_finding_setreadonly_close` is the explicit witness at
+`codeCfg`: `SetReadOnly` returns `ErrClosed` with the token in `writeLockC`, and `Close` blocks for ever.
+The other leak theorems (`leak_commit`, `leak_opentx`, `leak_largebatch`, stated for `Cfg.asIs`) show what
+each of the three fixes prevents: an explicit run and an invariant proving that the resource is never
+released afterwards and which later calls therefore never complete.
 
 Liveness is termination: `measure` strictly decreases on every fault-free step, so every schedule, fair or
 not, that contains finitely many storage failures is finite, and by `progress` it can only end when no call
@@ -39,7 +47,50 @@ namespace GoLevel.C09
 
 open GoLevel.Locks
 
-/-! ## the repaired configuration -/
+/-! ## the tie to the source -/
+
+/-- the three leaks are closed in the Go source (regenerated facts) -/
+theorem code_three_fixed :
+    codeCfg.commitUnlocksOnError = true ∧ codeCfg.openTxReleasesOnError = true ∧
+    codeCfg.largeBatchDiscardsOnCommitError = true := by decide
+
+theorem code_covered (s : St) (hr : ReachableNoSR codeCfg s) : Covered codeCfg s :=
+  ⟨code_three_fixed, Or.inr hr⟩
+
+theorem repaired_covered (s : St) (hr : Reachable Cfg.repaired s) : Covered Cfg.repaired s :=
+  ⟨⟨rfl, rfl, rfl⟩, Or.inl ⟨rfl, hr⟩⟩
+
+/-! ## the statements -/
+
+/-- every held resource has exactly its owners, and a returned call owns nothing -/
+def ReleasedOnReturn (s : St) : Prop :=
+  (tot tokW s.ws + b2n s.trOpen + b2n s.ehTok + b2n s.closeTok = b2n s.tok) ∧
+  (tot clkW s.ws + bgClk s.mc + bgClk s.tc = b2n s.clk) ∧
+  (tot trlkW s.ws = b2n s.trlk) ∧
+  (∀ ok, tokW (.ret ok) = 0 ∧ clkW (.ret ok) = 0 ∧ trlkW (.ret ok) = 0)
+
+/-- while a call is pending a fault-free step is enabled, or a user transaction is open -/
+def Progress (cfg : Cfg) (s : St) : Prop :=
+  ∀ (i : Nat) (p : Pc), s.ws[i]? = some p → pending p = true →
+    (∃ t, Step cfg false s t) ∨ (s.trOpen = true ∧ s.trUser = true)
+
+/-- fault-free steps decrease `measure`; fault-free runs from `s` have at most `measure s` steps; one of
+them cannot be extended; and when one cannot be extended, no call is pending (or a user transaction is open) -/
+def RecoversAfterFaults (cfg : Cfg) (s : St) : Prop :=
+  (∀ t u, Step cfg false t u → measure u < measure t) ∧
+  (∀ n t, StepsNFN cfg n s t → n ≤ measure s) ∧
+  (∃ t, StepsNF cfg s t ∧ ¬ ∃ u, Step cfg false t u) ∧
+  (∀ t, StepsNF cfg s t → (¬ ∃ u, Step cfg false t u) →
+    (∀ (i : Nat) (p : Pc), t.ws[i]? = some p → pending p = false) ∨ (t.trOpen = true ∧ t.trUser = true))
+
+/-- every fault-free run from `s` that cannot be extended ends with each `Close` that was in progress in `s`
+returned (or a user transaction is open) -/
+def CloseReturns (cfg : Cfg) (s : St) : Prop :=
+  ∀ (i : Nat) (p : Pc), s.ws[i]? = some p → clAllW p = 1 →
+    ∀ t, StepsNF cfg s t → (¬ ∃ u, Step cfg false t u) →
+      t.ws[i]? = some (.ret true) ∨ (t.trOpen = true ∧ t.trUser = true)
+
+/-! ## the covered configurations -/
 
 /-- **Every held resource has exactly its owners**: the token is in `writeLockC` iff exactly one of — a
 thread between acquiring and releasing it, the open transaction, `compWriteLocking`, `Close` — holds it;
@@ -48,21 +99,17 @@ likewise `compCommitLk` (a committing `Commit` or compaction) and `tr.lk`.  A th
 whatever its outcome — except the token of a successful `OpenTransaction`, which passes to the transaction
 (`trOpen`) and is released by `Commit`(ok) / `Discard` / `Close` (`St.setDone`), and the token `SetReadOnly`
 leaves to `compactionError` (`ehTok`), released on `Close`. -/
-theorem released_on_return (s : St) (hr : Reachable Cfg.repaired s) :
-    (tot tokW s.ws + b2n s.trOpen + b2n s.ehTok + b2n s.closeTok = b2n s.tok) ∧
-    (tot clkW s.ws + bgClk s.mc + bgClk s.tc = b2n s.clk) ∧
-    (tot trlkW s.ws = b2n s.trlk) ∧
-    (∀ ok, tokW (.ret ok) = 0 ∧ clkW (.ret ok) = 0 ∧ trlkW (.ret ok) = 0) :=
-  have g := reachable_rinv s hr
+theorem released_on_return (cfg : Cfg) (s : St) (hc : Covered cfg s) : ReleasedOnReturn s :=
+  have g := (covered_good cfg s hc).1.r
   ⟨g.tokI, g.clkI, g.trlkI, fun _ => ⟨rfl, rfl, rfl⟩⟩
 
 /-- corollary: when no call is in progress, no transaction is open and the DB is neither read-only nor
 closed, all three locks are free -/
-theorem nothing_held_when_quiet (s : St) (hr : Reachable Cfg.repaired s)
+theorem nothing_held_when_quiet (cfg : Cfg) (s : St) (hr : Covered cfg s)
     (hq : ∀ (i : Nat) (p : Pc), s.ws[i]? = some p → pending p = false) (ht : s.trOpen = false)
     (he : s.ehTok = false) (hc : s.closeTok = false) (hm : bgClk s.mc = 0) (htc : bgClk s.tc = 0) :
     s.tok = false ∧ s.clk = false ∧ s.trlk = false := by
-  obtain ⟨h1, h2, h3, _⟩ := released_on_return s hr
+  obtain ⟨h1, h2, h3, _⟩ := released_on_return cfg s hr
   have z : ∀ (f : Pc → Nat), f .idle = 0 → (∀ ok, f (.ret ok) = 0) → tot f s.ws = 0 := by
     intro f h0 hret
     cases hz : tot f s.ws with
@@ -80,28 +127,19 @@ theorem nothing_held_when_quiet (s : St) (hr : Reachable Cfg.repaired s)
   rw [z trlkW rfl (fun _ => rfl)] at h3
   exact ⟨bz _ (by simpa using h1), bz _ (by simpa using h2), bz _ h3⟩
 
-/-- **No reachable state is stuck while a call is pending**: some fault-free step is enabled — or the
+/-- **No covered state is stuck while a call is pending**: some fault-free step is enabled — or the
 pending calls queue behind a transaction that the user holds open. -/
-theorem progress (s : St) (hr : Reachable Cfg.repaired s) (i : Nat) (p : Pc) (hi : s.ws[i]? = some p)
-    (hp : pending p = true) :
-    (∃ t, Step Cfg.repaired false s t) ∨ (s.trOpen = true ∧ s.trUser = true) :=
-  Locks.progress s (reachable_good s hr) i p hi hp
+theorem progress (cfg : Cfg) (s : St) (hc : Covered cfg s) : Progress cfg s :=
+  fun i p hi hp => Locks.progress s (covered_good cfg s hc).1 i p hi hp
 
-theorem reachable_nf (s t : St) (hr : Reachable Cfg.repaired s) (h : StepsNF Cfg.repaired s t) :
-    Reachable Cfg.repaired t := by
-  obtain ⟨n, hs⟩ := hr
-  exact ⟨n, Steps.trans hs (stepsNF_steps h)⟩
+theorem covered_nf (cfg : Cfg) (s t : St) (hc : Covered cfg s) (h : StepsNF cfg s t) : Covered cfg t :=
+  covered_steps cfg s t hc (stepsNF_steps h)
 
 /-- **Once failures stop, every call completes** (or fails at once with the persistent error — the
 `selPerErr` / `cwSendErr` arms are ordinary steps): every fault-free step decreases `measure`; a fault-free
 run from `s` has at most `measure s` steps, whatever the scheduler; and when it cannot be extended no call is
 pending any more (or the user holds a transaction open). -/
-theorem recovers_after_faults (s : St) (hr : Reachable Cfg.repaired s) :
-    (∀ t u, Step Cfg.repaired false t u → measure u < measure t) ∧
-    (∀ n t, StepsNFN Cfg.repaired n s t → n ≤ measure s) ∧
-    (∃ t, StepsNF Cfg.repaired s t ∧ ¬ ∃ u, Step Cfg.repaired false t u) ∧
-    (∀ t, StepsNF Cfg.repaired s t → (¬ ∃ u, Step Cfg.repaired false t u) →
-      (∀ (i : Nat) (p : Pc), t.ws[i]? = some p → pending p = false) ∨ (t.trOpen = true ∧ t.trUser = true)) := by
+theorem recovers_after_faults (cfg : Cfg) (s : St) (hc : Covered cfg s) : RecoversAfterFaults cfg s := by
   refine ⟨fun t u h => step_measure _ t u h, ?_, settle _ s, ?_⟩
   · intro n t h; have := stepsNFN_measure h; omega
   · intro t ht hq
@@ -112,17 +150,16 @@ theorem recovers_after_faults (s : St) (hr : Reachable Cfg.repaired s) :
       cases hp : pending p with
       | false => rfl
       | true =>
-        rcases progress t (reachable_nf s t hr ht) i p hi hp with h | h
+        rcases progress cfg t (covered_nf cfg s t hc ht) i p hi hp with h | h
         · exact absurd h hq
         · exact absurd h hu
 
-/-- **`Close` returns**: from every reachable state in which a thread is inside `Close`, every fault-free
+/-- **`Close` returns**: from every covered state in which a thread is inside `Close`, every fault-free
 run that cannot be extended (one exists, and all are shorter than `measure s`) ends with that `Close`
 returned — it needs nothing but the steps of the calls and compactions already started — unless a user
 transaction was opened behind its back and is still open. -/
-theorem close_returns (s : St) (hr : Reachable Cfg.repaired s) (i : Nat) (p : Pc) (hi : s.ws[i]? = some p)
-    (hp : clAllW p = 1) (t : St) (ht : StepsNF Cfg.repaired s t) (hq : ¬ ∃ u, Step Cfg.repaired false t u) :
-    t.ws[i]? = some (.ret true) ∨ (t.trOpen = true ∧ t.trUser = true) := by
+theorem close_returns (cfg : Cfg) (s : St) (hc : Covered cfg s) : CloseReturns cfg s := by
+  intro i p hi hp t ht hq
   have hcl : ∃ q, t.ws[i]? = some q ∧ (clAllW q = 1 ∨ q = .ret true) := by
     clear hq
     induction ht with
@@ -133,12 +170,34 @@ theorem close_returns (s : St) (hr : Reachable Cfg.repaired s) (i : Nat) (p : Pc
   obtain ⟨q, hq1, hq2⟩ := hcl
   rcases hq2 with hq2 | hq2
   · have hpend : pending q = true := by cases q <;> simp [clAllW] at hq2 <;> rfl
-    rcases progress t (reachable_nf s t hr ht) i q hq1 hpend with h | h
+    rcases progress cfg t (covered_nf cfg s t hc ht) i q hq1 hpend with h | h
     · exact absurd h hq
     · exact Or.inr h
   · subst hq2; exact Or.inl hq1
 
-/-! ### non-vacuity: the runs that leak in the code as it is, in the repaired configuration -/
+/-! ### the current source (`codeCfg`), runs without `SetReadOnly` -/
+
+theorem code_released_on_return (s : St) (hr : ReachableNoSR codeCfg s) : ReleasedOnReturn s :=
+  released_on_return codeCfg s (code_covered s hr)
+theorem code_progress (s : St) (hr : ReachableNoSR codeCfg s) : Progress codeCfg s :=
+  progress codeCfg s (code_covered s hr)
+theorem code_recovers_after_faults (s : St) (hr : ReachableNoSR codeCfg s) : RecoversAfterFaults codeCfg s :=
+  recovers_after_faults codeCfg s (code_covered s hr)
+theorem code_close_returns (s : St) (hr : ReachableNoSR codeCfg s) : CloseReturns codeCfg s :=
+  close_returns codeCfg s (code_covered s hr)
+
+/-! ### all four fixes (`Cfg.repaired`), every run -/
+
+theorem repaired_released_on_return (s : St) (hr : Reachable Cfg.repaired s) : ReleasedOnReturn s :=
+  released_on_return Cfg.repaired s (repaired_covered s hr)
+theorem repaired_progress (s : St) (hr : Reachable Cfg.repaired s) : Progress Cfg.repaired s :=
+  progress Cfg.repaired s (repaired_covered s hr)
+theorem repaired_recovers_after_faults (s : St) (hr : Reachable Cfg.repaired s) : RecoversAfterFaults Cfg.repaired s :=
+  recovers_after_faults Cfg.repaired s (repaired_covered s hr)
+theorem repaired_close_returns (s : St) (hr : Reachable Cfg.repaired s) : CloseReturns Cfg.repaired s :=
+  close_returns Cfg.repaired s (repaired_covered s hr)
+
+/-! ### non-vacuity: the leaking runs of `Cfg.asIs`, in the repaired configuration and at `codeCfg` -/
 
 /-- `OpenTransaction` fails in `rotateMem`: the token is back -/
 example : Steps Cfg.repaired (init 2) { ws := [.ret false, .idle] } := by
@@ -162,7 +221,7 @@ example : Steps Cfg.repaired (init 2)
     { ws := [.ret false, .ret true], tok := true, closeTok := true, closed := true, eh := .exited,
       mc := .exited, tc := .exited } := by
   have h := Steps.refl (cfg := Cfg.repaired) (init 2)
-  have h := h.step (Step.startSR _ 0 rfl)
+  have h := h.step (Step.startSR _ 0 rfl rfl)
   have h := h.step (Step.selTok _ 0 .srSel .srSet rfl rfl rfl)
   have h := h.step (Step.startClose _ 1 rfl)
   have h := h.step (Step.ehExit _ (by decide) rfl)
@@ -176,7 +235,7 @@ example : Steps Cfg.repaired (init 2)
 
 example : measure (init 3) = 186 := by decide
 
-/-! ## the code as it is: the property fails -/
+/-! ## what each fix prevents (`Cfg.asIs`), and the remaining known finding -/
 
 /-- **`OpenTransaction` leaks the write lock** when `rotateMem` (or `waitCompaction`) fails: there is a
 reachable state in which the call has returned its error, nobody owns the token, and yet it is in
@@ -242,30 +301,52 @@ theorem leak_largebatch :
     · rw [hc] at h; cases h
     · exact ⟨h1, h2, h3, h4⟩
 
-/-- **`SetReadOnly` racing with `Close` leaks the write lock**: `SetReadOnly` has taken the token, `Close`
-closes `closeC`, `compactionError` leaves its `noerr` loop (it releases the token only from `hasperr`),
-`SetReadOnly` takes the `closeC` arm of its second `select` and returns `ErrClosed`: the token stays in
-`writeLockC`, `Close` (thread 1) blocks in `db.writeLockC <- struct{}{}` for ever. -/
-theorem leak_setreadonly :
-    ∃ s, Reachable Cfg.asIs s ∧ s.ws[0]? = some (.ret false) ∧ s.ws[1]? = some .clAcq ∧
-      ∀ t, Steps Cfg.asIs s t →
+/-- **`SetReadOnly` racing with `Close` leaks the write lock** (any configuration without the fourth fix):
+`SetReadOnly` has taken the token, `Close` closes `closeC`, `compactionError` leaves its `noerr` loop (it
+releases the token only from `hasperr`), `SetReadOnly` takes the `closeC` arm of its second `select` and
+returns `ErrClosed`: the token stays in `writeLockC`, `Close` (thread 1) blocks in
+`db.writeLockC <- struct{}{}` for ever. -/
+theorem leak_setreadonly_of (cfg : Cfg) (hf : cfg.setReadOnlyReleasesOnClose = false) :
+    ∃ s, Reachable cfg s ∧ s.ws[0]? = some (.ret false) ∧ s.ws[1]? = some .clAcq ∧
+      ∀ t, Steps cfg s t →
         t.tok = true ∧ tot tokW t.ws = 0 ∧ t.closeTok = false ∧ ∀ (i : Nat), t.ws[i]? ≠ some .clWait := by
-  refine ⟨srLeakSt, ⟨2, srLeakRun⟩, rfl, rfl, ?_⟩
+  refine ⟨srLeakSt, ⟨2, srLeakRun cfg hf⟩, rfl, rfl, ?_⟩
   intro t ht
   have h0 : EhOrphan srLeakSt := ⟨rfl, by decide, rfl, rfl, rfl, rfl, by decide, by decide⟩
-  obtain ⟨h1, h2, _, _, _, h6, h7, _⟩ := steps_inv_of_step EhOrphan (step_ehOrphan Cfg.asIs) _ _ ht h0
+  obtain ⟨h1, h2, _, _, _, h6, h7, _⟩ := steps_inv_of_step EhOrphan (step_ehOrphan cfg) _ _ ht h0
   refine ⟨h1, h2, h6, ?_⟩
   intro i hi
   have := le_tot (fun p => if p = .clWait then 1 else 0) t.ws i _ hi
   simp at this; omega
+
+theorem leak_setreadonly :
+    ∃ s, Reachable Cfg.asIs s ∧ s.ws[0]? = some (.ret false) ∧ s.ws[1]? = some .clAcq ∧
+      ∀ t, Steps Cfg.asIs s t →
+        t.tok = true ∧ tot tokW t.ws = 0 ∧ t.closeTok = false ∧ ∀ (i : Nat), t.ws[i]? ≠ some .clWait :=
+  leak_setreadonly_of Cfg.asIs rfl
+
+/-- **KNOWN FINDING, current source**: as long as the extractor reports that `SetReadOnly` does not give the
+token back on its `closeC` arm, the race is a run of the model of the current code: `SetReadOnly` has
+returned `ErrClosed`, and `Close` never gets the write lock. -/
+theorem known_finding_setreadonly_close (hf : codeCfg.setReadOnlyReleasesOnClose = false) :
+    ∃ s, Reachable codeCfg s ∧ s.ws[0]? = some (.ret false) ∧ s.ws[1]? = some .clAcq ∧
+      ∀ t, Steps codeCfg s t →
+        t.tok = true ∧ tot tokW t.ws = 0 ∧ t.closeTok = false ∧ ∀ (i : Nat), t.ws[i]? ≠ some .clWait :=
+  leak_setreadonly_of codeCfg hf
 
 /-- the accounting of `released_on_return` fails in the code as it is -/
 theorem asIs_not_released : ∃ s, Reachable Cfg.asIs s ∧ ¬ RInv s :=
   ⟨otxLeakSt, ⟨2, otxLeakRun⟩, fun h => by have := h.tokI; revert this; decide⟩
 
 def theorems : List String :=
-  ["GoLevel.C09.released_on_return", "GoLevel.C09.nothing_held_when_quiet", "GoLevel.C09.progress",
+  ["GoLevel.C09.code_three_fixed",
+   "GoLevel.C09.released_on_return", "GoLevel.C09.nothing_held_when_quiet", "GoLevel.C09.progress",
    "GoLevel.C09.recovers_after_faults", "GoLevel.C09.close_returns",
+   "GoLevel.C09.code_released_on_return", "GoLevel.C09.code_progress",
+   "GoLevel.C09.code_recovers_after_faults", "GoLevel.C09.code_close_returns",
+   "GoLevel.C09.repaired_released_on_return", "GoLevel.C09.repaired_progress",
+   "GoLevel.C09.repaired_recovers_after_faults", "GoLevel.C09.repaired_close_returns",
+   "GoLevel.C09.known_finding_setreadonly_close", "GoLevel.C09.leak_setreadonly_of",
    "GoLevel.C09.leak_opentx", "GoLevel.C09.leak_commit", "GoLevel.C09.leak_largebatch",
    "GoLevel.C09.leak_setreadonly", "GoLevel.C09.asIs_not_released"]
 
